@@ -19,6 +19,9 @@ type ordItem struct {
 	Nil    bool     `json:"nil"` // typed nil pointer
 	Pub    [3]int64 `json:"pub"` // sec, nsec, zone offset; zero time = {-62135596800,0,0}
 	Upd    [3]int64 `json:"upd"`
+	// Other, when not zero, fills every other instant the type has (startTime, endTime, a tombstone's deleted)
+	// with an instant that many seconds away from the later of published/updated: the order ignores them
+	Other int64 `json:"other,omitempty"`
 }
 
 func mkTime(p [3]int64) time.Time {
@@ -44,6 +47,16 @@ func (o ordItem) item() ap.Item {
 	pv.Elem().FieldByName("Published").Set(reflect.ValueOf(mkTime(o.Pub)))
 	pv.Elem().FieldByName("Updated").Set(reflect.ValueOf(mkTime(o.Upd)))
 	pv.Elem().FieldByName("ID").SetString("https://example.com/o")
+	if o.Other != 0 {
+		_, k := o.key()
+		other := time.Unix(k[0]+o.Other, k[1]).UTC()
+		tt := reflect.TypeOf(time.Time{})
+		for i := 0; i < rt.NumField(); i++ {
+			if f := rt.Field(i); f.Type == tt && f.Name != "Published" && f.Name != "Updated" {
+				pv.Elem().Field(i).Set(reflect.ValueOf(other))
+			}
+		}
+	}
 	if o.Ptr {
 		return pv.Interface().(ap.Item)
 	}
@@ -113,6 +126,9 @@ func c17Pool(r *RNG, n int) []ordItem {
 			if (ti+pi)%3 == 0 {
 				o.Upd = [3]int64{1500000000 + int64(ti*1000+pi*10) + 5, 0, 3600}
 			}
+			if (ti+pi)%2 == 0 {
+				o.Other = 400000000 // later than every published/updated of these entries
+			}
 			pool = append(pool, o)
 		}
 	}
@@ -130,6 +146,8 @@ func c17Pool(r *RNG, n int) []ordItem {
 		o.Pub, o.Upd = pick(), pick()
 		if o.Nil {
 			o.Pub, o.Upd = zeroT, zeroT
+		} else if r.Chance(40) {
+			o.Other = []int64{3600, 86400 * 365, -3600, 400000000, 1}[r.Intn(5)]
 		}
 		pool = append(pool, o)
 	}
